@@ -308,7 +308,9 @@ func isData(name string) bool {
 
 func runScenario(sc *scenario, data []byte) result {
 	srv := fakeredis.New()
-	srv.RealClock = true
+	// virtual clock: starts at the wall clock and advances 2 ms per request, so that a 1 ms ttl
+	// has always run out before the next request (deterministic expiry races)
+	srv.ClockStepMs = 2
 	srv.NowMs = time.Now().UnixMilli()
 	if _, err := srv.Start(); err != nil {
 		hx.Fatal("%v", err)
@@ -448,7 +450,7 @@ finished:
 			res.dataReqs++
 		}
 	}
-	srv.NowMs = time.Now().UnixMilli()
+	srv.NowMs += 5
 	now := srv.NowMs
 	var dbs []int
 	for d := range srv.DBs {
